@@ -96,7 +96,11 @@ def r1(ctx):
     # (c) every exceptional edge leaving the try body reaches the rollback before leaving the function
     body_nodes = [n.id for n in g.nodes if n.stmt is not None and n.kind not in ("handler",) and lexically_inside(pm, n.stmt, T.body)]
     starts = [n for n in body_nodes if g.exc_succ(n)]
-    w = g.must_pass(starts, [g.exit, g.raise_exit], rb_n, start_edge_ok=lambda a, b, l: l == "exc")
+    # entering `with util.safe_reraise():` is not treated as a raising statement (trusted idiom)
+    sr_enter = {n.id for n in g.nodes if n.kind == "with_enter" and any(
+        isinstance(i.context_expr, ast.Call) and callee_is(i.context_expr, "safe_reraise") for i in n.stmt.items)}
+    w = g.must_pass(starts, [g.exit, g.raise_exit], rb_n, start_edge_ok=lambda a, b, l: l == "exc",
+                    edge_ok=lambda a, b, l: not (a in sr_enter and l == "exc"))
     ctx.check(w is None and bool(rb_n), f"{f.key}:exceptional-paths-roll-back",
               "an exception raised between execute() and commit() can leave _flush without transaction.rollback()",
               f"{len(starts)} raising statements, all routed through rollback()", f.loc, w)
